@@ -135,6 +135,73 @@ Proof.
   rewrite (is_prefix_trans root p key Hb E) in Hk. discriminate.
 Qed.
 
+(* ------------------------------------------------------------------------------ symbolic links *)
+Lemma follow_off_link (ls : list (list N * list N)) (p : list N) : on_link ls p = false -> follow ls p = p.
+Proof.
+  induction ls as [|[l t] ls IH]; [reflexivity|]. cbn [on_link existsb fst follow]. intros H.
+  apply orb_false_elim in H. destruct H as [H1 H2]. unfold is_prefix in H1.
+  destruct (strip l p); [discriminate|]. apply IH. exact H2.
+Qed.
+
+Lemma realize_l_CS root ls t cs : realize_l root ls (CS t cs) = CS t (map (realize_l root ls) cs).
+Proof. reflexivity. Qed.
+
+Lemma no_link_edits_CS root ls t cs :
+  no_link_edits root ls (CS t cs) = true -> Forall (fun c => no_link_edits root ls c = true) cs.
+Proof.
+  unfold no_link_edits. rewrite resources_CS. induction cs as [|c cs IH]; intros H; constructor.
+  - cbn [flat_map] in H. rewrite forallb_app in H. apply andb_true_iff in H. tauto.
+  - apply IH. cbn [flat_map] in H. rewrite forallb_app in H. apply andb_true_iff in H. tauto.
+Qed.
+
+(* a change that edits no resource on or below a link is performed exactly as without links *)
+Lemma realize_l_no_links root ls c : no_link_edits root ls c = true -> realize_l root ls c = realize root c.
+Proof.
+  induction c as [p n o|p q b|p b|p b|t cs IH] using change_ind'; intros H; try reflexivity.
+  - cbn [realize_l realize]. unfold no_link_edits, ignored_link in H. cbn [resources forallb] in H.
+    apply andb_true_iff in H. destruct H as [H _]. apply negb_true_iff in H.
+    rewrite (follow_off_link _ _ H). reflexivity.
+  - rewrite realize_l_CS, realize_CS. f_equal. apply no_link_edits_CS in H.
+    induction IH as [|c cs Hc _ IHcs]; [reflexivity|]. inversion H; subst. cbn [map]. f_equal; auto.
+Qed.
+
+(* ------------------------------------------------------------------- moves land where announced *)
+(* a move whose destination is free (what _get_destination_for_move arranges for refactorings) puts the
+   resource, with everything below it, exactly at the announced destination *)
+Lemma move_lands (p q : list N) (m m' : fs) :
+  wf_fs m -> simple_move p q m = true -> p_move p q m = POk m' ->
+  forall r, m' !! (q ++ r) = m !! (p ++ r) /\ m' !! (p ++ r) = None.
+Proof.
+  intros Hwf Hs H r. apply simple_move_movable in Hs.
+  pose proof (movable_not_nested m p q Hwf Hs) as Hnn.
+  rewrite (p_move_simple m p q Hs) in H. inversion H; subst m'. clear H.
+  rewrite !lookup_move_tree, (swapf_under_q p q r Hnn), (swapf_under_p p q r Hnn). split; [reflexivity|].
+  destruct Hs as (_ & Hq & _ & Hnone & _ & _).
+  apply (wf_no_orphans m q Hwf Hq Hnone). apply is_prefix_app.
+Qed.
+
+(* --------------------------------------------------------------------------------- descriptions *)
+(* what the preview was computed against is what do replaces, and what it announced is what is written *)
+Lemma description_matches k p new old m m' k' c' :
+  body k Do (CC p new old) m = Ok m' k' c' ->
+  m' !! p = Some (File new) /\
+  (old = None -> c' = CC p new (Some (desc_old (CC p new None) m)) /\ m !! p = Some (File (desc_old (CC p new None) m))).
+Proof.
+  destruct old as [o|]; cbn [body].
+  - intros H. apply lift_ok in H. destruct H as [H _]. apply prim_ok in H. split; [|discriminate].
+    unfold p_write in H. destruct p as [|x p]; [discriminate|].
+    destruct (m !! (x :: p)) as [[o'|]|]; try discriminate.
+    + inversion H; subst. apply lookup_insert.
+    + destruct (is_dir m _); [|discriminate]. inversion H; subst. apply lookup_insert.
+  - destruct (prim_read k (p_read p m)) as [[o k1]|[k1 y]] eqn:Er; [|discriminate].
+    apply prim_read_inl in Er. destruct Er as [Er _].
+    intros H. apply lift_ok in H. destruct H as [H ->]. apply prim_ok in H.
+    unfold desc_old. rewrite Er. unfold p_read in Er.
+    destruct (m !! p) as [[o'|]|] eqn:Em; try discriminate. inversion Er; subst o'.
+    split; [|intros _; split; reflexivity].
+    unfold p_write in H. destruct p as [|x p]; [discriminate|]. rewrite Em in H. inversion H; subst. apply lookup_insert.
+Qed.
+
 (* ----------------------------------------------------------- the trace of a successful perform *)
 Lemma body_events_ok k c m m' k' c' :
   body k Do c m = Ok m' k' c' -> body_events k Do c m = expected_events c.
@@ -275,6 +342,50 @@ Proof.
   rewrite E in Hl. cbn [res_fs] in Hl. rewrite Hl. vm_compute. discriminate.
 Qed.
 
+(* with symbolic links, in_root alone no longer confines: rope's answer is that links are ignored resources *)
+Theorem run_confined_links v f js k d root ls c m key :
+  in_root root = true -> all_in_root c = true -> no_link_edits root ls c = true -> is_prefix root key = false ->
+  res_fs (run v f js k d (realize_l root ls c) m) !! key = m !! key.
+Proof. intros Hr Hc Hl Hk. rewrite realize_l_no_links by exact Hl. apply run_confined; assumption. Qed.
+
+(* segment 17 = lnk.py, a link  proj/lnk.py -> ext/extmod.py *)
+Definition w_links : list (list N * list N) := [([10%N; 17%N], [14%N; 15%N])].
+Definition w_through_link : change := CS 6 [CC [17%N] [7%N] None].
+
+Theorem link_escape_refuted :
+  exists root ls c m m' k' c' key,
+    in_root root = true /\ wf_fs m /\ all_in_root c = true /\ no_link_edits root ls c = false /\
+    run repaired 4 true quiet Do (realize_l root ls c) m = Ok m' k' c' /\
+    is_prefix root key = false /\ m' !! key <> m !! key.
+Proof.
+  exists w_root, w_links, w_through_link, w_disk.
+  destruct (run repaired 4 true quiet Do (realize_l w_root w_links w_through_link) w_disk) as [m' k' c'|m' k' x] eqn:E;
+    [|vm_compute in E; discriminate].
+  exists m', k', c', [14%N; 15%N].
+  split; [reflexivity|]. split; [apply w_disk_wf|]. split; [reflexivity|]. split; [reflexivity|].
+  split; [reflexivity|]. split; [reflexivity|].
+  assert (Hl : res_fs (run repaired 4 true quiet Do (realize_l w_root w_links w_through_link) w_disk) !! [14%N; 15%N]
+               = Some (File [7%N])) by (vm_compute; reflexivity).
+  rewrite E in Hl. cbn [res_fs] in Hl. rewrite Hl. vm_compute. discriminate.
+Qed.
+
+Lemma move_lands_example :
+  wf_fs w_disk /\ simple_move [10%N; 11%N] [10%N; 12%N] w_disk = true /\
+  exists m', p_move [10%N; 11%N] [10%N; 12%N] w_disk = POk m'.
+Proof.
+  split; [apply w_disk_wf|]. split; [reflexivity|].
+  destruct (p_move [10%N; 11%N] [10%N; 12%N] w_disk) as [m'| |] eqn:E; [eauto|vm_compute in E; discriminate..].
+Qed.
+
+Lemma description_example :
+  exists m' k' c', body quiet Do (CC [10%N; 13%N] [5%N] None) w_disk = Ok m' k' c' /\
+                   desc_old (CC [10%N; 13%N] [5%N] None) w_disk = [2%N].
+Proof.
+  destruct (body quiet Do (CC [10%N; 13%N] [5%N] None) w_disk) as [m' k' c'|m' k' x] eqn:E;
+    [|vm_compute in E; discriminate].
+  exists m', k', c'. split; reflexivity.
+Qed.
+
 (* a well-formed refactoring-like change: edit a.py, move b.py into a new package; all in_root *)
 Definition w_ok : change :=
   CS 2 [CC [13%N] [5%N] None; CR [16%N] true; MV [11%N] [16%N; 11%N] false].
@@ -360,3 +471,9 @@ Proof.
     by (vm_compute; reflexivity).
   rewrite E in H1. split; [exact H1|]. left. reflexivity.
 Qed.
+
+Lemma confined_links_example :
+  in_root w_root = true /\ all_in_root w_ok = true /\ no_link_edits w_root w_links w_ok = true /\
+  realize_l w_root w_links w_ok = realize w_root w_ok.
+Proof. repeat split; try reflexivity. Qed.
+
